@@ -26,6 +26,7 @@ pub fn dispatch(f: &[&str]) -> String {
         "from_float" => from_float(f[1], f[2], f[3]),
         "fmt_roundtrip" => fmt_roundtrip(f[1], f[2]),
         "parse" => parse_op(f[1], f[2]),
+        "fmt_prec" => fmt_prec(f[1], f[2], f[3], f[4]),
         "to_prim" => to_prim(f[1], f[2], f[3]),
         "to_bigint" => match p_dec(f[1]).to_bigint() { Some(v) => v.to_string(), None => "None".to_string() },
         "is_integer" => p_dec(f[1]).is_integer().to_string(),
@@ -278,5 +279,19 @@ fn parse_op(hex: &str, radix: &str) -> String {
             match <BigDecimal as num_traits::Num>::from_str_radix(s, radix) { Ok(d2) if d2 == d => f_dec(&d), _ => "DISAGREE".to_string() }
         }
         None => "Err".to_string(),
+    }
+}
+
+fn fmt_prec(kind: &str, a: &str, n: &str, flags: &str) -> String {
+    let x = p_dec(a);
+    let p: usize = n.parse().unwrap();
+    match (kind, flags) {
+        ("fixed", "plain") => format!("{:.*}", p, x),
+        ("fixed", _) => format!("{:*>+40.*}", p, x),
+        ("e", "plain") => format!("{:.*e}", p, x),
+        ("e", _) => format!("{:*>+40.*e}", p, x),
+        ("E", "plain") => format!("{:.*E}", p, x),
+        ("E", _) => format!("{:*>+40.*E}", p, x),
+        _ => "UNKNOWN-FMT".to_string(),
     }
 }
